@@ -107,29 +107,42 @@ def conditional_variants():
         variants["cond_" + _re.sub(r"\W", "", s_)] = ("gcc", flags)
     return variants, sorted(syms)
 
+import threading as _threading
+_bind_lock = _threading.Lock()
 def gen_bindings(wd):
     out = os.path.join(wd, "bind")
-    if os.path.isdir(out):
-        return out
-    r = subprocess.run([sys.executable, os.path.join(HARNESS, "gen_bindings.py"), REPO, out],
-                       capture_output=True, text=True)
-    if r.returncode != 0:
-        raise Infra("binding generation failed: " + r.stderr[-2000:])
+    with _bind_lock:                  # several build threads ask for the bindings at once: generate once, publish the complete directory
+        if os.path.isdir(out):
+            return out
+        tmp = out + ".tmp"
+        r = subprocess.run([sys.executable, os.path.join(HARNESS, "gen_bindings.py"), REPO, tmp],
+                           capture_output=True, text=True)
+        if r.returncode != 0:
+            raise Infra("binding generation failed: " + r.stderr[-2000:])
+        os.rename(tmp, out)
     return out
+
+_exe_locks = {}
+def _exe_lock(path):
+    with _bind_lock:
+        return _exe_locks.setdefault(path, _threading.Lock())
 
 def build_exec(wd, variant="O2", extra_sources=(), extra_flags=(), name=None):
     """Compile executor + generated bindings + the library sources of the current tree."""
     cc, flags = VARIANTS[variant]
     bind = gen_bindings(wd)
     exe = os.path.join(wd, name or ("exec_" + variant))
-    if os.path.exists(exe):
-        return exe
-    cmd = [cc] + flags + list(extra_flags) + ["-std=gnu99", "-w", "-I" + os.path.join(REPO, "include"), "-I" + HARNESS,
-          os.path.join(HARNESS, "exec.c"), os.path.join(HARNESS, "exec_ext.c")] + \
-          sorted(glob.glob(os.path.join(bind, "*.c"))) + lib_sources() + list(extra_sources) + ["-o", exe, "-lm", "-lpthread"]
-    r = subprocess.run(cmd, capture_output=True, text=True)
-    if r.returncode != 0:
-        raise CompileError("build of %s failed:\n%s" % (variant, r.stderr[-4000:]))
+    with _exe_lock(exe):              # build threads may ask for the same executable: one builds, the others wait for the complete file
+        if os.path.exists(exe):
+            return exe
+        tmp = exe + ".tmp%d" % os.getpid()
+        cmd = [cc] + flags + list(extra_flags) + ["-std=gnu99", "-w", "-I" + os.path.join(REPO, "include"), "-I" + HARNESS,
+              os.path.join(HARNESS, "exec.c"), os.path.join(HARNESS, "exec_ext.c")] + \
+              sorted(glob.glob(os.path.join(bind, "*.c"))) + lib_sources() + list(extra_sources) + ["-o", tmp, "-lm", "-lpthread"]
+        r = subprocess.run(cmd, capture_output=True, text=True)
+        if r.returncode != 0:
+            raise CompileError("build of %s failed:\n%s" % (variant, r.stderr[-4000:]))
+        os.rename(tmp, exe)
     return exe
 
 
@@ -137,13 +150,16 @@ def build_exec32(wd):
     """The ILP32 executor (harness/exec32.c): freestanding -m32 build of the library + bindings; None if the toolchain cannot do it."""
     bind = gen_bindings(wd)
     exe = os.path.join(wd, "exec_ilp32")
-    if os.path.exists(exe): return exe
-    cmd = ["gcc", "-m32", "-O1", "-w", "-std=gnu99", "-ffreestanding", "-nostdlib", "-static", "-fno-stack-protector", "-fno-pic", "-no-pie",
-           "-I" + os.path.join(HARNESS, "shim32"), "-I" + os.path.join(REPO, "include"), "-I" + HARNESS, os.path.join(HARNESS, "exec32.c"), os.path.join(HARNESS, "exec_ext.c")] + \
-          sorted(glob.glob(os.path.join(bind, "*.c"))) + lib_sources() + ["-o", exe]
-    r = subprocess.run(cmd, capture_output=True, text=True)
-    if r.returncode != 0:
-        raise CompileError("ILP32 build failed:\n%s" % r.stderr[-3000:])
+    with _exe_lock(exe):
+        if os.path.exists(exe): return exe
+        tmp = exe + ".tmp%d" % os.getpid()
+        cmd = ["gcc", "-m32", "-O1", "-w", "-std=gnu99", "-ffreestanding", "-nostdlib", "-static", "-fno-stack-protector", "-fno-pic", "-no-pie",
+               "-I" + os.path.join(HARNESS, "shim32"), "-I" + os.path.join(REPO, "include"), "-I" + HARNESS, os.path.join(HARNESS, "exec32.c"), os.path.join(HARNESS, "exec_ext.c")] + \
+              sorted(glob.glob(os.path.join(bind, "*.c"))) + lib_sources() + ["-o", tmp]
+        r = subprocess.run(cmd, capture_output=True, text=True)
+        if r.returncode != 0:
+            raise CompileError("ILP32 build failed:\n%s" % r.stderr[-3000:])
+        os.rename(tmp, exe)
     return exe
 
 
